@@ -26,3 +26,20 @@ pub fn vx_byte_at(s: &str, i: usize) -> (r: Option<u8>) ensures r == byte_at(s@,
 /// `o == Some(&b'-')`
 #[verifier::external_body]
 pub fn vx_is_dash(o: Option<u8>) -> (r: bool) ensures r == (o == Some(0x2du8)) { unimplemented!() }
+#[verifier::external_body]
+pub struct Delimiters { _p: () }
+/// the least offset at which one of the three start markers stands (engine K group lexer_bytes: least offset, on character boundaries)
+pub uninterp spec fn marker_at(s: Seq<char>, d: Delimiters) -> Option<usize>;
+#[verifier::external_body]
+pub fn vx_find_start_marker(s: &str, d: &Delimiters) -> (r: Option<usize>)
+    ensures r == marker_at(s@, *d), r is Some ==> is_boundary(s@, r->Some_0 as int) && r->Some_0 <= blen(s@)
+{ unimplemented!() }
+#[verifier::external_body]
+pub fn vx_blen(s: &str) -> (r: usize) ensures r == blen(s@) { unimplemented!() }
+/// the end of the text is a boundary
+#[verifier::external_body]
+pub proof fn axiom_whole(s: Seq<char>) ensures is_boundary(s, blen(s) as int), take_bytes(s, blen(s) as int) == s {}
+#[verifier::external_body]
+pub proof fn axiom_marker(s: Seq<char>, d: Delimiters)
+    ensures marker_at(s, d) is Some ==> is_boundary(s, marker_at(s, d)->Some_0 as int) && marker_at(s, d)->Some_0 <= blen(s)
+{}
